@@ -14,7 +14,11 @@ C07  Name obfuscation is a consistent, capture-free renaming — property theore
   top_level_unchanged            without obfuscate_globals the global scope gets the empty table
   prewalk_leak_invariant         what `close()` guarantees: in the scope tree the prewalk leaves, every non-local symbol of a
                                  function scope is a key of its parent's `referenced_symbols` (through catch proxies), at every depth
-  remap_injective_visible        for every program, flags and scope S of the finished tree: `resolve_S` is one-to-one on the keys of
+  remap_injective_visible        (for the REPAIRED `Scope.resolve`, /repo f665fbf: the look-up of `arguments` stops at the first function scope
+                                 without a replacement for it)  hypothesis `noArgsValue fin` (decidable): no generated name is the word
+                                 `arguments` — in principle possible (nine letters of ID_CHARS, not a keyword) once a scope needs > 53^8
+                                 names, and then the implicit `arguments` of an inner function would collide with it.
+                                 for every program, flags and scope S of the finished tree: `resolve_S` is one-to-one on the keys of
                                  S's `referenced_symbols` (= by the leak invariant the names referenced in S's subtree that are
                                  visible-and-declared at S or free at S), the identity on names no scope of the chain declares (free names)
                                  and on names no scope with a non-empty table declares (top-level names without obfuscate_globals)
@@ -162,7 +166,7 @@ theorem prewalk_leak_invariant (sf : Bool) (tree : Val) (st : St) (h : prewalk t
 (`InjTree` = `ScopeOK` of every scope with its chain of ancestors): resolve is one-to-one on the names referenced at the scope,
 the identity on free names and on names only scopes with an empty table declare. -/
 theorem remap_injective_visible (fl : Flags) (tree : Val) (fin : Final)
-    (h : prewalkHook tablesGen fl tree = .ok fin) :
+    (h : prewalkHook tablesGen fl tree = .ok fin) (hna : noArgsValue fin = true) :
     ∃ st g, prewalk tablesGen fl.shadowFuncname tree = .ok st ∧ st.stack = [g] ∧
       InjTree [] (closeFrame g) fin.tree := by
   unfold prewalkHook at h
@@ -170,7 +174,7 @@ theorem remap_injective_visible (fl : Flags) (tree : Val) (fin : Final)
   · cases h
   · rename_i st hst
     obtain ⟨g, hg, hi⟩ := finalize_injTree charset_ok.1 charset_ok.2 fl st fin
-      (prewalk_stackInv tablesGen fl.shadowFuncname tree st hst) h
+      (prewalk_stackInv tablesGen fl.shadowFuncname tree st hst) h (noArgsValue_allNew fin hna)
     exact ⟨st, g, hst, hg, hi⟩
 
 /-- what `ScopeOK` says, spelled out for one scope with chain `chain` (itself first) -/
@@ -318,6 +322,24 @@ theorem ok_program_keysPlain :
     (match prewalkHook tablesGen (minifyFlags true false) okP with
      | .ok fin => keysPlain fin
      | .error _ => false) = true := by decide +kernel
+
+/-! ### regression: the implicit `arguments` object (fixed in /repo f665fbf; was a fourth deviation class) -/
+
+/-- `function f(arguments){ return function(){ return arguments; }; }` -/
+def argsA : Val := (.node "ES5Program" [("children", (.list [(.node "FuncDecl" [("elements", (.list [(.node "Return" [("expr", (.node "FuncExpr" [("elements", (.list [(.node "Return" [("expr", (.node "Identifier" [("value", (.str "arguments"))]))])])), ("identifier", .none), ("parameters", (.list []))]))])])), ("identifier", (.node "Identifier" [("value", (.str "f"))])), ("parameters", (.list [(.node "Identifier" [("value", (.str "arguments"))])]))])]))])
+/-- `function f(){ var arguments = 1; function g(){ return arguments.length; } return g; }` -/
+def argsB : Val := (.node "ES5Program" [("children", (.list [(.node "FuncDecl" [("elements", (.list [(.node "VarStatement" [("children", (.list [(.node "VarDecl" [("identifier", (.node "Identifier" [("value", (.str "arguments"))])), ("initializer", (.node "Number" [("value", (.str "1"))]))])]))]), (.node "FuncDecl" [("elements", (.list [(.node "Return" [("expr", (.node "DotAccessor" [("identifier", (.node "PropIdentifier" [("value", (.str "length"))])), ("node", (.node "Identifier" [("value", (.str "arguments"))]))]))])])), ("identifier", (.node "Identifier" [("value", (.str "g"))])), ("parameters", (.list []))]), (.node "Return" [("expr", (.node "Identifier" [("value", (.str "g"))]))])])), ("identifier", (.node "Identifier" [("value", (.str "f"))])), ("parameters", (.list []))])]))])
+/-- `var arguments = 5; function g(){ return arguments; }` -/
+def argsC : Val := (.node "ES5Program" [("children", (.list [(.node "VarStatement" [("children", (.list [(.node "VarDecl" [("identifier", (.node "Identifier" [("value", (.str "arguments"))])), ("initializer", (.node "Number" [("value", (.str "5"))]))])]))]), (.node "FuncDecl" [("elements", (.list [(.node "Return" [("expr", (.node "Identifier" [("value", (.str "arguments"))]))])])), ("identifier", (.node "Identifier" [("value", (.str "g"))])), ("parameters", (.list []))])]))])
+
+/-- before the repair the inner `arguments` was renamed together with the outer declaration; now the binding structure is
+preserved, the programs are aligned, and no generated name is `arguments` (all flags that rename the declaration) -/
+theorem arguments_regression :
+    bindingPreserved (minifyFlags false false) argsA = some true ∧ alignedOf (minifyFlags false false) argsA = some true ∧
+    bindingPreserved (minifyFlags true true) argsA = some true ∧
+    bindingPreserved (minifyFlags false false) argsB = some true ∧ alignedOf (minifyFlags false false) argsB = some true ∧
+    bindingPreserved (minifyFlags true false) argsC = some true ∧ alignedOf (minifyFlags true false) argsC = some true := by
+  decide +kernel
 
 /-! ### the hypotheses are satisfiable -/
 
